@@ -953,10 +953,12 @@ class Terminal:
                         MBXType.COE, "HBHB4s", CoECmd.SDOREQ.value << 12,
                         ODCmd.DOWN_EXP.value | (((4 - len(data)) << 2) & 0xc),
                         index, subindex, data)
-                type, data = await self.mbx_recv()
-            if type is not MBXType.COE:
-                raise EtherCatError(f"expected CoE, got {type}, {data} "
-                                    f"{odata} {index:x}:{subindex:x}")
+                type = None
+                while type is not MBXType.COE:
+                    type, data = await self.mbx_recv()
+                    if type is not MBXType.COE:
+                        logging.warning(f"expected CoE package, got {type}, "
+                                        f"for terminal {self.name}")
             coecmd, sdocmd, idx, subidx = unpack("<HBHB", data[:6])
             if idx != index or subindex != subidx:
                 raise EtherCatError(f"requested index {index:x}:{subindex:x}, "
@@ -973,10 +975,13 @@ class Terminal:
                         else ODCmd.DOWN_INIT.value,
                         index, 1 if subindex is None else subindex,
                         data=data[:stop])
-                type, data = await self.mbx_recv()
-                if type is not MBXType.COE:
-                    raise EtherCatError(f"expected CoE, got {type}")
-                coecmd, sdocmd, idx, subidx = unpack("<HBHB", data[:6])
+                type = None
+                while type is not MBXType.COE:
+                    type, resp = await self.mbx_recv()
+                    if type is not MBXType.COE:
+                        logging.warning(f"expected CoE package, got {type}, "
+                                        f"for terminal {self.name}")
+                coecmd, sdocmd, idx, subidx = unpack("<HBHB", resp[:6])
                 if coecmd >> 12 != CoECmd.SDORES.value:
                     raise EtherCatError(f"expected CoE SDORES, got {coecmd>>12:x}")
                 if idx != index or subindex != subidx:
